@@ -322,7 +322,10 @@ class Gen:
             if c < 0.22:
                 s.types.append(dict(name=n, body=("alias", ("B", r.choice(BASES))))); simple_named.append(n)
             elif c < 0.34 and simple_named:
-                s.types.append(dict(name=n, body=("alias", ("N", r.choice(simple_named))))); simple_named.append(n)
+                if aggr_named and r.random() < 0.3:     # another name for a named aggregate
+                    s.types.append(dict(name=n, body=("alias", ("N", r.choice(aggr_named))))); aggr_named.append(n)
+                else:
+                    s.types.append(dict(name=n, body=("alias", ("N", r.choice(simple_named))))); simple_named.append(n)
             elif c < 0.52:
                 items = []
                 for _ in range(r.randint(1, 5)):
